@@ -60,7 +60,7 @@ def server_stage(c, drivers, tag, inp=None, timeout=2400, extra_key=None):
         raise vlib.ToolError("Trace_Server did not consume the whole trace (%s of %s)" % (verdict.get("matched"), len(events)))
     if summary.get("rounds", 0) and summary.get("dropped_rounds", 0) * 5 > summary.get("rounds", 0):
         raise vlib.ToolError("too many rounds discarded because the kernel dropped datagrams")
-    c.evaluations += summary.get("rounds", 0)
+    c.evaluations += sum(1 for e in events if e.get("ev") in ("arrive", "reply", "log", "hc_round"))
     c.behaviours_replayed += summary.get("replayed", 0)
     mine = REASONS[c.pid]
     hits = 0
